@@ -1,6 +1,6 @@
 (* C12 -- Spatial derivatives of flow fields are exact on polynomial fields.
    Statements only; every proof is `exact <lemma>`.  K ranges over all fields of characteristic 0 (R for meaning,
-   Qc for running the model).  gen_* are regenerated from /repo on every run (Gen/FlowDeriv.v); fd1, smooth1, dstep2,
+   Qc for running the model).  gen_* are regenerated from /repo on every run (Gen/FlowDeriv.v); fd1, smooth1 (replicate padding), dstep2,
    deriv2/3, sderivs are the executable model (Model/FiniteDiff.v) that the correspondence runs against the code. *)
 From Coq Require Import ZArith QArith Qcanon List Permutation Lia.
 From DV Require Import Base.Field Base.LinAlg Base.QcInst Model.BSplineBase Gen.BSpline Model.BSpline
@@ -56,23 +56,26 @@ Theorem C12_second_derivative_field_3d :
 Proof. exact second_derivative_quadratic_3d. Qed.
 Print Assumptions C12_second_derivative_field_3d.
 
-(* 3. prewitt / sobel: the smoothing across the other axes reproduces affine data away from its zero padding ... *)
-Theorem C12_smoothing_preserves_affine :
+(* 3. prewitt / sobel: the (replicate-padded) smoothing across the other axes keeps an affine sequence in the interior and
+      shifts it by + / - kb (slope h) at the first / last sample (kb = 1/3 prewitt, 1/4 sobel, 0 for the other modes) -- a
+      constant along every other axis, so derivatives along the other axes are not affected; every length, every index *)
+Theorem C12_smoothing_affine :
   forall (K : fld), is_field K -> char0 K ->
-  forall (m : fdmode) (n : nat) (a b h : K) (i : nat), (1 <= i)%nat -> (i + 1 < n)%nat ->
-  nth i (smooth1 m (aff_seq a b h n)) 0 = nth i (aff_seq a b h n) 0.
-Proof. exact smooth_affine_interior. Qed.
-Print Assumptions C12_smoothing_preserves_affine.
+  forall (m : fdmode) (n : nat) (a b h : K) (i : nat), (i < n)%nat ->
+  nth i (smooth1 m (aff_seq a b h n)) 0 = a * (zn i * h) + b + shiftc K m n i * (a * h).
+Proof. exact smooth_affine. Qed.
+Print Assumptions C12_smoothing_affine.
 
 (* 4. two dimensions, all six modes, all shapes and spacings: the composed operator returns the analytic partial
-      derivatives of f(y, x) = a + bx (x hx) + by (y hy) at every point where the difference scheme is supported and
-      (prewitt / sobel) the smoothing does not touch the zero padding of the other axis *)
+      derivatives of f(y, x) = a + bx (x hx) + by (y hy) at EVERY grid point the difference scheme supports along the
+      differentiated axis (exact1: every index for forward_central_backward, prewitt, sobel) -- no restriction on the
+      other axis *)
 Theorem C12_affine_field_2d :
   forall (K : fld), is_field K -> char0 K ->
   forall (m : fdmode) (a bx by_ hx hy : K) (nx ny x y : nat),
-  (hx <> 0 -> exact1 m nx x -> smooth_ok m ny y ->
+  (hx <> 0 -> exact1 m nx x -> (y < ny)%nat ->
      nth x (nth y (dstep2 m 0 hx (field2 a bx by_ hx hy nx ny)) []) 0 = bx) /\
-  (hy <> 0 -> exact1 m ny y -> smooth_ok m nx x ->
+  (hy <> 0 -> exact1 m ny y -> (x < nx)%nat ->
      nth x (nth y (dstep2 m 1 hy (field2 a bx by_ hx hy nx ny)) []) 0 = by_).
 Proof.
   intros K Kf Kc m a bx by_ hx hy nx ny x y. split;
@@ -81,14 +84,15 @@ Qed.
 Print Assumptions C12_affine_field_2d.
 
 (* three dimensions: f(z, y, x) = a + bx (x hx) + by (y hy) + bz (z hz); the difference along one axis after smoothing
-   the two other axes (prewitt / sobel) returns the analytic partial derivative; all six modes, shapes, spacings *)
+   the two other axes (prewitt / sobel) returns the analytic partial derivative at every grid point the scheme supports
+   along that axis; all six modes, shapes, spacings *)
 Theorem C12_affine_field_3d :
   forall (K : fld), is_field K -> char0 K ->
   forall (m : fdmode) (a bx by_ bz hx hy hz : K) (nx ny nz x y z : nat),
   let c := field3 a bx by_ bz hx hy hz nx ny nz in
-  (hx <> 0 -> exact1 m nx x -> smooth_ok m ny y -> smooth_ok m nz z -> at3 (dstep3 m 0 hx c) z y x = bx) /\
-  (hy <> 0 -> exact1 m ny y -> smooth_ok m nx x -> smooth_ok m nz z -> at3 (dstep3 m 1 hy c) z y x = by_) /\
-  (hz <> 0 -> exact1 m nz z -> smooth_ok m nx x -> smooth_ok m ny y -> at3 (dstep3 m 2 hz c) z y x = bz).
+  (hx <> 0 -> exact1 m nx x -> (y < ny)%nat -> (z < nz)%nat -> at3 (dstep3 m 0 hx c) z y x = bx) /\
+  (hy <> 0 -> exact1 m ny y -> (x < nx)%nat -> (z < nz)%nat -> at3 (dstep3 m 1 hy c) z y x = by_) /\
+  (hz <> 0 -> exact1 m nz z -> (x < nx)%nat -> (y < ny)%nat -> at3 (dstep3 m 2 hz c) z y x = bz).
 Proof.
   intros K Kf Kc m a bx by_ bz hx hy hz nx ny nz x y z c. split; [|split];
   [exact (dstep3_affine_x K Kf Kc m a bx by_ bz hx hy hz nx ny nz x y z)
@@ -96,22 +100,6 @@ Proof.
   |exact (dstep3_affine_z K Kf Kc m a bx by_ bz hx hy hz nx ny nz x y z)].
 Qed.
 Print Assumptions C12_affine_field_3d.
-
-(* The property text asks for exactness of prewitt / sobel at *every* grid point:
-     forall m a bx by hx hy nx ny x y, hx <> 0 -> exact1 m nx x -> y < ny -> (value at (y, x)) = bx.
-   That is false of the code (zero-padded smoothing): witness on a 3 x 3 grid, boundary row, f = x. *)
-Theorem C12_every_grid_point_refuted :
-  forall (K : fld), is_field K -> char0 K ->
-  nth 1 (nth 0 (dstep2 Sobel 0 1 (field2 (K:=K) 0 1 0 1 1 3 3)) []) 0 = of_Q 3 4.
-Proof. exact sobel_boundary_refuted. Qed.
-Print Assumptions C12_every_grid_point_refuted.
-
-Theorem C12_smoothing_boundary_partial :
-  forall (K : fld), is_field K -> char0 K ->
-  forall (n : nat) (c : K), (2 <= n)%nat ->
-  nth 0 (smooth1 Sobel (aff_seq 0 c 1 n)) 0 = of_Q 3 4 * c /\ nth 0 (smooth1 Prewitt (aff_seq 0 c 1 n)) 0 = of_Q 2 3 * c.
-Proof. exact smooth_boundary_loses_mass. Qed.
-Print Assumptions C12_smoothing_boundary_partial.
 
 (* 5. the quantities assembled from the derivative dictionary equal their definitions (entries j_ik = d u_i / d x_k) *)
 Theorem C12_jacobian_det :
@@ -152,9 +140,8 @@ Proof. intros K Kf. split; [exact (lie2_formula K Kf)|exact (lie3_formula K Kf)]
 Print Assumptions C12_lie_bracket.
 
 (* 5b. ... and on affine vector fields u(p) = A p + t (v(p) = B p + s) sampled on a grid they take their analytic values
-       at every grid point whose coordinates are supported along every axis (reg1 = exact1 and smooth_ok: all points for
-       forward_central_backward, all but the padded end(s) for forward / backward / central, interior for the cross-
-       smoothing of prewitt / sobel): Jacobian = A, det = det A, det with identity = det (A + I), divergence = trace A,
+       at every grid point whose coordinates are supported along every axis (reg1 = exact1: ALL grid points for
+       forward_central_backward, prewitt and sobel; all but the replicate-padded end(s) for forward / backward / central): Jacobian = A, det = det A, det with identity = det (A + I), divergence = trace A,
        curl = rotation vector of A, [v, u] = B u(p) - A v(p); all shapes, spacings <> 0, D = 2 and D = 3 *)
 Theorem C12_flow_operators_affine_2d :
   forall (K : fld), is_field K -> char0 K ->
@@ -263,6 +250,7 @@ Example C12_nonvacuous :
   vclose 0%Q (fd1 (K:=QcF) Fcb (q 1 2) (aff_seq (K:=QcF) (q 3 1) (q 1 4) (q 1 2) 5)) [q 3 1; q 3 1; q 3 1; q 3 1; q 3 1] = true /\
   vclose 0%Q (fd1 (K:=QcF) Fwd (q 1 2) (aff_seq (K:=QcF) (q 3 1) (q 1 4) (q 1 2) 5)) [q 3 1; q 3 1; q 3 1; q 3 1; q 0 1] = true /\
   qeqb (nth 2 (fd1 (K:=QcF) Fcb (q 1 2) (fd1 (K:=QcF) Fcb (q 1 2) (quad_seq (K:=QcF) (q 5 1) (q 1 1) (q 2 1) (q 1 2) 5))) (q 0 1)) (q 10 1) = true /\
+  qeqb (nth 1 (nth 0 (dstep2 (K:=QcF) Sobel 0 (q 1 1) (field2 (K:=QcF) (q 0 1) (q 1 1) (q 0 1) (q 1 1) (q 1 1) 3 3)) []) (q 0 1)) (q 1 1) = true /\
   map fst (sderivs nat 0%nat (fun a v => (10 * v + a + 1)%nat) [[1; 0]; [0]; [1; 0]; [0; 1]]%nat)
     = [[1; 0]; [0]; [1; 0]; [0; 1]]%nat /\
   map snd (sderivs nat 0%nat (fun a v => (10 * v + a + 1)%nat) [[1; 0]; [0]; [1; 0]; [0; 1]]%nat)
